@@ -28,16 +28,49 @@ pub fn hex(b: &[u8]) -> String {
 }
 
 /// Calls `f` on the whitespace-separated words of every stdin line and prints one result line.
-/// A panic inside `f` is an observable result `panic <message>`.
+/// A panic inside `f` is an observable result `panic <message>`.  A case that does not return within
+/// `H3V_CASE_TIMEOUT` seconds (default 30) - a spin or a blocking wait inside h3 - makes a watchdog thread
+/// abort the process with exit code 3 and a message naming the case; results of earlier cases were flushed.
 pub fn run_lines<F: FnMut(&[&str]) -> String>(mut f: F) {
+    use std::sync::atomic::{AtomicU64, Ordering};
+    use std::sync::{Arc, Mutex};
     std::panic::set_hook(Box::new(|_| {}));
+    let limit: u64 = std::env::var("H3V_CASE_TIMEOUT").ok().and_then(|v| v.parse().ok()).unwrap_or(30);
+    let started = Arc::new(AtomicU64::new(0)); // 0 = idle, else ms since t0 (+1)
+    let current = Arc::new(Mutex::new(String::new()));
+    let t0 = std::time::Instant::now();
+    {
+        let started = started.clone();
+        let current = current.clone();
+        std::thread::spawn(move || loop {
+            std::thread::sleep(std::time::Duration::from_millis(500));
+            let s = started.load(Ordering::SeqCst);
+            if s != 0 && (t0.elapsed().as_millis() as u64 + 1).saturating_sub(s) > limit * 1000 {
+                let c = current.lock().map(|g| g.clone()).unwrap_or_default();
+                eprintln!("watchdog: case did not return within {}s (spin or blocking wait inside h3): {}", limit, c);
+                std::process::exit(3);
+            }
+        });
+    }
     let stdin = std::io::stdin();
     let stdout = std::io::stdout();
     let mut out = std::io::BufWriter::new(stdout.lock());
+    let mut last_flush = std::time::Instant::now();
     for line in stdin.lock().lines() {
         let line = line.expect("stdin");
         let ws: Vec<&str> = line.split_whitespace().collect();
+        if let Ok(mut g) = current.lock() {
+            g.clear();
+            g.push_str(&line);
+        }
+        // everything already computed reaches the parent before a possibly hanging case starts
+        if last_flush.elapsed().as_millis() > 200 {
+            out.flush().unwrap();
+            last_flush = std::time::Instant::now();
+        }
+        started.store(t0.elapsed().as_millis() as u64 + 1, Ordering::SeqCst);
         let r = catch_unwind(AssertUnwindSafe(|| f(&ws)));
+        started.store(0, Ordering::SeqCst);
         let s = match r {
             Ok(s) => s,
             Err(e) => {
